@@ -1093,6 +1093,7 @@ func udpDeliveryLockRule(c *Ctx, rule string) {
 		loopFns = append(loopFns, fn)
 		loopFns = append(loopFns, fn.AnonFuncs...)
 	}
+	loopFns = uniqFns(loopFns)
 	for _, fn := range loopFns {
 		states := core.LockStates(fn, core.LockSet{})
 		for _, b := range fn.Blocks {
